@@ -78,10 +78,11 @@ def sh(cmd, timeout, cwd=ROOT):
 
 def scan_forbidden():
     hits = []
-    for d, _, fs in os.walk(os.path.join(COQ, "theories")):
-        for f in fs:
-            if f.endswith(".v"):
-                p = os.path.join(d, f)
+    # the development = the files listed in _CoqProject (what `make` builds) + the generated case files
+    listed = [l.strip() for l in open(os.path.join(COQ, "_CoqProject")) if l.strip().endswith(".v")]
+    for rel in listed:
+        for p in [os.path.join(COQ, rel)]:
+            if os.path.exists(p):
                 src = open(p).read()
                 src = re.sub(r"\(\*.*?\*\)", "", src, flags=re.S)
                 for m in FORBIDDEN.finditer(src):
